@@ -93,6 +93,7 @@ type benignParams struct {
 	SrvChain     int  // GM: 0 direct leaf, 1 via intermediate
 	SrvMissing   bool // GMSSL server configured with the signing certificate only
 	VHost        bool // the server holds two identities; the client asks for the second name (server2.sim)
+	OuterCfg     int  // SrvCertSrc 2: policy fields of the listener configuration: 0 same as the per-connection one, 1 permissive decoy, 2 restrictive decoy
 }
 
 func drawSuiteList(c *simkit.Choice, pool []uint16) []uint16 {
@@ -229,6 +230,9 @@ func drawBenignParams(c *simkit.Choice) benignParams {
 	}
 	// SrvChain (certificates under an intermediate CA) is outside C06's quantifier;
 	// see DESIGN.md "things deliberately not done". Always 0.
+	if p.SrvCertSrc == 2 {
+		p.OuterCfg = c.Weighted([]int{1, 2, 2}, simkit.LScen)
+	}
 	return p
 }
 
@@ -436,7 +440,7 @@ func gmOnly(l []uint16) []uint16 {
 
 func (p *benignParams) String() string {
 	return fmt.Sprintf("alpn=%v/%v curves=%v smode=%d cgm=%v peer=%d csuites=%x ssuites=%x prefsrv=%v cver=[%x,%x] sver=[%x,%x] auth=%d ccert=%d cas=%v ssrc=%d csrc=%d tick=%v dyn=%v skey=%d cberr=%d cverify=%d chain=%d missing=%v vhost=%v",
-		p.CProtos, p.SProtos, p.Curves, p.SMode, p.CGM, p.Peer, p.CSuites, p.SSuites, p.PreferServer, p.CMin, p.CMax, p.SMin, p.SMax, p.ClientAuth, p.ClientCert, p.SrvClientCAs, p.SrvCertSrc, p.CliCertSrc, p.Tickets, p.DynOff, p.SrvKey, p.CallbackErr, p.CVerify, p.SrvChain, p.SrvMissing, p.VHost)
+		p.CProtos, p.SProtos, p.Curves, p.SMode, p.CGM, p.Peer, p.CSuites, p.SSuites, p.PreferServer, p.CMin, p.CMax, p.SMin, p.SMax, p.ClientAuth, p.ClientCert, p.SrvClientCAs, p.SrvCertSrc, p.CliCertSrc, p.Tickets, p.DynOff, p.SrvKey, p.CallbackErr, p.CVerify, p.SrvChain, p.SrvMissing, p.VHost) + fmt.Sprintf(" outer=%d", p.OuterCfg)
 }
 
 // serverConfig builds the gmtls server configuration.
@@ -590,6 +594,28 @@ func (p *benignParams) serverConfig(s *simkit.Sim, ent *simkit.Stream, res *endR
 			callbacks(cfg)
 		} else {
 			certs(cfg)
+		}
+		// "GetConfigForClient ... may return a non-nil Config in order to change the
+		// Config that will be used to handle this connection": the policy in force is
+		// the returned one. The listener configuration's own policy fields are decoys.
+		switch p.OuterCfg {
+		case 1:
+			cfg.MinVersion, cfg.MaxVersion = 0, 0
+			cfg.CipherSuites = nil
+			cfg.PreferServerCipherSuites = !p.PreferServer
+			cfg.ClientAuth, cfg.ClientCAs = gmtls.NoClientCert, nil
+			cfg.NextProtos, cfg.CurvePreferences = nil, nil
+		case 2:
+			if p.SMode == modeTLS {
+				cfg.MinVersion, cfg.MaxVersion = gmtls.VersionTLS10, gmtls.VersionTLS10
+			} else {
+				cfg.MinVersion, cfg.MaxVersion = gmtls.VersionTLS12, gmtls.VersionTLS12
+			}
+			cfg.CipherSuites = []uint16{gmtls.TLS_RSA_WITH_3DES_EDE_CBC_SHA}
+			cfg.PreferServerCipherSuites = !p.PreferServer
+			cfg.ClientAuth, cfg.ClientCAs = gmtls.RequireAndVerifyClientCert, pki.Pool("caB")
+			cfg.NextProtos = []string{"decoy/1"}
+			cfg.CurvePreferences = []gmtls.CurveID{gmtls.CurveP521}
 		}
 	}
 	if p.SrvMissing {
